@@ -313,6 +313,12 @@ impl super::BitVector for BitVector<'_> {
     }
 
     fn rank(&self, index: usize) -> Option<usize> {
+        // The position one past the end has no word of its own when the length is a multiple of
+        // the block size:  rank(len) is rank(len - 1) plus the last bit.
+        if index > 0 && index == self.len() {
+            let (bit, rank) = self.access_rank(index - 1)?;
+            return Some(rank + bit as usize);
+        }
         Some(self.access_rank(index)?.1)
     }
 
